@@ -275,7 +275,7 @@ package inference
 
 //@ -- the closure that takes the upstream snapshot at the end of ObserveUpstream
 //@ func (*Engine).ObserveUpstream$3
-//@ prop C06 C03 C05
+//@ prop C06 C03 C05 C01
 //@ requires (and (not (= e nil)) (imOK e.inferredMap) (not (= e.inferredMap.upstreamMapping nil)) (valOK val))
 //@ modifies DeterminedVal UndeterminedVal (map e.inferredMap.upstreamMapping) (obj (implOf e.inferredMap)) (map (. (implOf e.inferredMap) inner)) (elems (. (implOf e.inferredMap) Pairs)) (obj (omPair (implOf e.inferredMap) 0))
 //@ ensures continues (= result true)
